@@ -41,14 +41,23 @@ func specialC04(p *Program, tier string) []UnitSpec {
 // parser returns together with an error.
 func specialC20(p *Program, tier string) []UnitSpec {
 	var out []UnitSpec
+	cfg := DefaultConfig()
+	cfg.InlineOnPreFail = true
+	if tier != "thorough" {
+		cfg.QuickLoopCap = 1
+	} else {
+		cfg.UnitSec = 3000
+	}
 	for _, fn := range p.EntryPoints() {
-		out = append(out, UnitSpec{Fn: fn, Opt: Options{UseRequires: false, MethodsOnError: true}, Why: "root", Kind: "sweep"})
+		c := cfg
+		out = append(out, UnitSpec{Fn: fn, Opt: Options{UseRequires: false, MethodsOnError: true}, Cfg: &c, Why: "root", Kind: "sweep"})
 	}
 	for _, fn := range p.AllRepoFuncs() {
 		if !Exported(fn) || fn.Signature.Recv() == nil || fn.Signature.Params().Len() != 0 {
 			continue
 		}
-		out = append(out, UnitSpec{Fn: fn, Opt: Options{ZeroRecv: true}, Why: "root", Kind: "zero"})
+		c := cfg
+		out = append(out, UnitSpec{Fn: fn, Opt: Options{ZeroRecv: true}, Cfg: &c, Why: "root", Kind: "zero"})
 	}
 	return out
 }
@@ -198,6 +207,15 @@ func RunProperty(repo, verifDir, prop, tier string, seed int) int {
 	if os.Getenv("GVC_PROGRESS") != "" {
 		Progress = func(r *UnitResult) { fmt.Fprintln(os.Stderr, "done:", r.Summary()) }
 	}
+	if f := os.Getenv("GVC_UNITS"); f != "" { // debugging aid: restrict the roots
+		var keep []UnitSpec
+		for _, sp := range specs {
+			if strings.Contains(FuncName(sp.Fn), f) {
+				keep = append(keep, sp)
+			}
+		}
+		specs = keep
+	}
 	units := p.closeOverContracts(cfg, specs)
 	obls, order := mergeObls(units)
 
@@ -275,7 +293,7 @@ func RunProperty(repo, verifDir, prop, tier string, seed int) int {
 	// only) and frame obligations (C18 only) unless this is that property.
 	belongs := func(o *Obligation) bool {
 		switch o.Kind {
-		case "safety", "unwind":
+		case "safety", "unwind", "elem":
 			return prop == "C04" || prop == "C20"
 		case "frame":
 			return prop == "C18"
